@@ -343,12 +343,14 @@ class NetworkMixin(RadioMixin):
             temp_buf = self._rf24.read()
             if temp_buf is None:
                 return ret_val
-            if (
-                not self.frame_buf.unpack(temp_buf)
-                or not is_address_valid(self.frame_buf.header.to_node)
-                or not is_address_valid(self.frame_buf.header.from_node)
-            ):
+            if not self.frame_buf.unpack(temp_buf):
+                continue
+            if not is_address_valid(
+                self.frame_buf.header.to_node
+            ) or not is_address_valid(self.frame_buf.header.from_node):
                 # print("discarding frame due to invalid network addresses.")
+                # frame_buf now holds the discarded frame, not the one ret_val described
+                ret_val = 0
                 continue
 
             # print(
